@@ -33,7 +33,9 @@ CLAUSES = {1: "a finished proposal changed (status / tallies / end reason / ball
            8: "governed object changed without a proposal about it being created or concluded",
            9: "proposal header / frozen electorate wrong",
            10: "electors counted as available do not cover voters + available non-voters",
-           11: "more electors counted as available than the electorate has"}
+           11: "more electors counted as available than the electorate has",
+           12: "status indexes (proposed / pause, feeding GetNotClosedProposals) do not list exactly the proposals of that status",
+           13: "stored record of a finished proposal rewritten (AvailableElectorateNum / ThresholdApproveNum changed)"}
 
 # ------------------------------------------------------------------------------------------------
 # strategy expressions: AST <-> govaluate string <-> Gallina term <-> python evaluation
@@ -201,11 +203,12 @@ def coq_state(o):
     roles = [r for r in o["roles"] if r[1] != 0]
     nodes = [x for x in o["nodes"] if x[1] != 0]
     strat = [(i, s) for i, s in enumerate(o["strat"]) if s[0] >= 0]
-    return "(S %s %s %s %s [] [])" % (
+    return "(S %s %s %s %s %s %s)" % (
         glist(roles, lambda r: "(%d,(%s,%d))" % (r[0], STATUS.get(r[1], "sX"), r[2])),
         glist(nodes, lambda x: "(%d,%s)" % (300 + x[0], STATUS.get(x[1], "sX"))),
         glist(strat, lambda s: "(%d,(%s,%d,%s))" % (s[0], gb(s[1][0] == 1), s[1][1] if s[1][1] >= 0 else 999, STATUS.get(s[1][2], "sX"))),
-        glist(o["props"], coq_prop))
+        glist(o["props"], coq_prop),
+        glist(o.get("pl") or [], lambda i: "%d%%nat" % i), glist(o.get("ql") or [], lambda i: "%d%%nat" % i))
 
 
 def coq_op(o):
@@ -599,7 +602,7 @@ def gen_theme(r):
         order = [a for a in admins if a not in skip]
         votes(p, order, 1)
 
-    theme = r.choice("ABCDE")
+    theme = r.choice("ABCDEFFGG")
     if theme == "A":
         P = submit(r.choice(["reg_node", "reg_role"]), 0, 0 if r.random() < 0.5 else 100)
         if blocks[-1][0]["k"] == "reg_role":
@@ -651,6 +654,51 @@ def gen_theme(r):
             votes(F, r.sample(admins, 1))
             votes(L, admins, r.randrange(2))
             votes(F, r.sample(admins, n))
+    elif theme == "F":
+        # a proposal concluded through the electorate path (a non-voted elector is frozen so that
+        # approval becomes unreachable, or the shrunk electorate no longer matters), followed by
+        # further electorate changes of its other non-voted electors: nothing of it may change again
+        if len(normals) >= 3:
+            strat = [[0, 0], [0, 0], [0, 0]]
+            P = submit(r.choice(["reg_node", "reg_role"]), 0, 0)
+            if blocks[-1][0]["k"] == "reg_role":
+                blocks[-1][0]["x"] = 100
+                votes(P, [0], r.randrange(2))
+            xs = r.sample(normals, min(len(normals), r.randint(2, 3)))
+            rejecters = [a for a in normals if a not in xs][: max(1, (n - 1) // 2)]
+            votes(P, rejecters, 0)
+            for x in xs:
+                F = submit("freeze", 0, x)
+                approve_all(F, skip=[x])
+                if r.random() < 0.6:
+                    A = submit("activate", 0, x)
+                    approve_all(A, skip=[x])
+            votes(P, r.sample(admins, 2))
+    elif theme == "G":
+        # priorities: a freeze (or activate) request of X is paused by a logout request of X; while it
+        # is paused other electors are frozen / activated; the logout request is then withdrawn or
+        # rejected, the paused one re-opens and is voted: its count of available electors must be current
+        if len(normals) >= 3:
+            strat = [[0, 0], [0, 0], [0, 0]]
+            x = normals[0]
+            cs = r.sample(normals[1:], min(len(normals) - 1, r.randint(1, 2)))
+            P1 = submit("freeze", 0, x)
+            pre = r.random() < 0.7
+            if pre:
+                for c in cs:
+                    F = submit("freeze", 0, c)
+                    approve_all(F, skip=[c, x] if r.random() < 0.5 else [c])
+            P2 = submit("logout", 0, x)
+            for c in cs:
+                A = submit("activate" if pre else "freeze", 0, c)
+                approve_all(A, skip=[c, x])
+            if r.random() < 0.5:
+                blocks.append([dict(k="withdraw", c=0, p=P2)])
+            else:
+                votes(P2, [a for a in admins if a != x], 0)
+            others = [a for a in normals if a != x and a not in cs]
+            votes(P1, others[: max(1, len(others))], 0)
+            votes(P1, [0] + cs, 1)
     else:
         strat = [[0, ei], [1, 0], [1, 0]]
         P = submit("reg_node", 0, 0)
